@@ -50,6 +50,11 @@ func (ial *IndentAwareLexer) checkNextToken() {
 func (ial *IndentAwareLexer) handleNewLineToken(currentToken antlr.Token) {
 	ial.pendingTokens.Enqueue(currentToken)
 
+	if ial.nextLineIsBlankOrComment() {
+		// Blank, whitespace-only and comment-only lines neither open nor close a block.
+		return
+	}
+
 	currentIndentationLength := ial.getLengthOfNewlineToken(currentToken)
 
 	previousIndent := 0
@@ -73,6 +78,18 @@ func (ial *IndentAwareLexer) handleNewLineToken(currentToken antlr.Token) {
 			}
 		}
 	}
+}
+
+// nextLineIsBlankOrComment looks at what follows the indentation that the NEWLINE token has just consumed.
+func (ial *IndentAwareLexer) nextLineIsBlankOrComment() bool {
+	input := ial.GetInputStream()
+	switch input.LA(1) {
+	case '\r', '\n', antlr.TokenEOF:
+		return true
+	case '/':
+		return input.LA(2) == '/'
+	}
+	return false
 }
 
 func (ial *IndentAwareLexer) getLengthOfNewlineToken(currentToken antlr.Token) int {
